@@ -106,6 +106,10 @@ def grid(tier):
         for cx in ("outside", "units-1/cm"):
             yield {"spec": spec0, "tcode": ["zero"], "mode": None, "cond": cond, "ctx": cx, "other": other,
                    "uses": [], "mode2": None, "mult": 1}
+    for cx in ("outside", "units-1/cm"):
+        for mode in (None, m1, dict(m1, shift0=0.8)):
+            yield {"spec": spec, "tcode": ["pow", 25], "mode": mode, "cond": "thermal_rdm", "ctx": cx, "other": other,
+                   "uses": [], "mode2": None, "mult": 1}
     for tcode in (["pow", 25], ["pow", 19]):
         for cx in ("outside", "eigen", "units-1/cm"):
             for cond in ("thermal", "tes_weak", "tes_strong", "tes_strong_rh", "tes_weak_rh", "impulsive"):
@@ -434,6 +438,45 @@ def _thermal_rdm(case, ctx, qr, T):
     ok, r = guarded(ctx, "request", run, "thermal_rdm")
     if not ok:
         return
+    # ---- molecules with a history of environments, and molecules without any bath (T = 0) -------------------------
+    def three_level():
+        with qr.energy_units("1/cm"):
+            m = qr.Molecule([0.0, 200.0 + 10.0 * (case["spec"]["E"][0] % 7), 520.0])
+            ta = qr.TimeAxis(0.0, 50, 1.0)
+            cf = qr.CorrelationFunction(ta, dict(ftype="OverdampedBrownian", reorg=20.0, cortime=50.0, T=float(Tenv),
+                                                 matsubara=10))
+            m.set_transition_environment((0, 1), cf)
+            m.set_transition_environment((0, 2), cf)
+            m.unset_transition_environment((0, 2))
+        rho = numpy.array(m.get_thermal_ReducedDensityMatrix().data)
+        with qr.energy_units("int"):
+            Hm = numpy.array(m.get_Hamiltonian().data, dtype=float)
+        return rho, Hm, float(m.get_temperature())
+    ok, tl = guarded(ctx, "request", three_level, "thermal_rdm/three-level-molecule")
+    if ok and _valid(ctx, tl[0], "thermal_rdm/three-level-molecule", unit_trace=True):
+        ctx.close("molecule-temperature", tl[2], Tenv, rtol=1e-12, where="environment-of-another-transition-removed")
+        ctx.close("boltzmann-populations", numpy.real(numpy.diag(tl[0])), orc.softmax_neg(numpy.diag(tl[1]) / (orc.KB_INT * Tenv)),
+                  rtol=0, atol=1e-6, where="thermal_rdm/three-level-molecule", T=Tenv)
+    if case["mode"] is not None:
+        def no_bath():
+            md = case["mode"]
+            with qr.energy_units("1/cm"):
+                m = qr.Molecule([0.0, float(case["spec"]["E"][0])])
+                mode = qr.Mode(float(md["w"]))
+                m.add_Mode(mode)
+                mode.set_nmax(0, md["n0"]); mode.set_nmax(1, md["n1"]); mode.set_HR(1, md["hr"])
+                mode.set_shift(0, float(md.get("shift0") or 0.8))
+            rho = numpy.array(m.get_thermal_ReducedDensityMatrix().data)
+            with qr.energy_units("int"):
+                Hm = numpy.array(m.get_Hamiltonian().data, dtype=float)
+            return rho, Hm
+        ok, nb = guarded(ctx, "request", no_bath, "thermal_rdm/molecule-without-bath")
+        if ok and _valid(ctx, nb[0], "thermal_rdm/molecule-without-bath", unit_trace=True):
+            # no bath: T = 0, the state is the lowest eigenstate of the molecule's Hamiltonian
+            evm, Sm = numpy.linalg.eigh(nb[1])
+            if len(evm) < 2 or evm[1] - evm[0] > 1e-9:
+                pop = float(numpy.real(Sm[:, 0] @ nb[0] @ Sm[:, 0]))
+                ctx.close("boltzmann-populations", pop, 1.0, rtol=0, atol=1e-9, where="thermal_rdm/molecule-without-bath", T=0.0)
     kT = orc.KB_INT * Tenv
     for name, rho, H in (("molecule", r[0], r[1]), ("aggregate", r[2], r[3])):
         if not _valid(ctx, rho, "thermal_rdm/" + name, unit_trace=True):
